@@ -1558,9 +1558,18 @@ struct TemplateCore {
             }
 
             case QOperation::Remainder: { // %
-                left.Value.Number.Integer = (left % right);
-                left.Type                 = ExpressionType::IntegerNumber;
-                break;
+                if (right.Type == ExpressionType::RealNumber) {
+                    right.Value.Number.Integer = SizeT64I(right.Value.Number.Real);
+                    right.Type                 = ExpressionType::IntegerNumber;
+                }
+
+                if (right != 0ULL) {
+                    left.Value.Number.Integer = (left % right);
+                    left.Type                 = ExpressionType::IntegerNumber;
+                    break;
+                }
+
+                return false;
             }
 
             case QOperation::Multiplication: { // *
